@@ -375,8 +375,8 @@ func (x *c11X) memCheck(where string) {
 			where, heap>>20, x.heap0>>20, x.sent)
 		return
 	}
-	if bound := 64*uint64(x.sent) + 256*uint64(x.recvd) + slack + uint64(x.lits)*(32<<20); x.allocG > bound {
-		x.failMeasured("alloc-total", "allocation out of proportion", "%s: %d MiB allocated while serving the garbage connections for %d bytes sent, %d bytes answered and %d accepted literals (bound: 64 x sent + 256 x answered + 64 MiB + 32 MiB per accepted literal)",
+	if bound := 1024*uint64(x.sent) + 256*uint64(x.recvd) + slack + uint64(x.lits)*(32<<20); x.allocG > bound {
+		x.failMeasured("alloc-total", "allocation out of proportion", "%s: %d MiB allocated while serving the garbage connections for %d bytes sent, %d bytes answered and %d accepted literals (bound: 1024 x sent + 256 x answered + 64 MiB + 32 MiB per accepted literal)",
 			where, x.allocG>>20, x.sent, x.recvd, x.lits)
 	}
 }
@@ -923,6 +923,11 @@ func (g *c11G) deliver(b []byte) {
 			// is inside a quoted string of the following line, the reader spins
 			// (recorded defect), and whether it is there at that moment is a race.
 			pt := g.pend[max(0, len(g.pend)-64):]
+			if len(g.pend) < 64 && len(g.head) > 0 && g.lineLen == len(g.head) {
+				// the line may have been begun by an earlier (unpipelined) action: what ends
+				// here is that line, not just the bytes of this burst
+				pt = append(append([]byte{}, g.head[max(0, len(g.head)-64):]...), g.pend...)
+			}
 			// Since that defect is repaired (d3e4ccf), half of the runs (cfg pipeend) keep the
 			// burst going: lines pipelined behind the end of the session are part of the
 			// quantifier, and the reader that parsed them must not outlive the session.
